@@ -486,6 +486,8 @@ struct InstRt {
     extra_polls: u64,
     rec_polls: bool,
     rec_items: bool,
+    /// `PollThenWalk`: the internal-iteration method has been run on the ended iterator
+    walked_after_end: Cell<bool>,
     /// for adapter drives: the item sequence of a next()-driven shadow run of this instance
     shadow: Option<Vec<ItemRec>>,
     cursor: Cell<usize>,
@@ -499,6 +501,8 @@ struct Oracle {
     ok_items: u64,
     /// an `Err` item has been yielded (of any kind): the consumer treats the iteration as over
     err_seen: bool,
+    /// number of `Err` items handed out so far
+    errs_yielded: u64,
     /// an `Err` item has been yielded while a fault of this instance had fired: from here on
     /// C06 demands `None` for ever. An `Err` of the solver itself with no fault fired (which
     /// C06 does not speak about) sets `err_seen` only.
@@ -534,6 +538,7 @@ fn judge_err(rt: &InstRt, ctx: &Ctx, e: &bacon_sci::ivp::IVPError, o: &mut Oracl
     let tags = found.all_tags();
     let fired: Vec<u64> = rt.stub.borrow().fired.clone();
     let foreign: Vec<u64> = tags.iter().copied().filter(|t| tag_inst(*t) != rt.idx).collect();
+    o.errs_yielded += 1;
     if o.user_err_seen {
         ctx.violate(
             "second-err",
@@ -952,15 +957,19 @@ fn nth_after_end(rt: &Rc<InstRt>, ctx: &Rc<Ctx>, m: usize) {
 
 /// `it.by_ref().fold((), |_, item| ...)`: consumes every item up to the first `None`,
 /// including whatever follows an `Err`; afterwards the consumer polls one at a time.
-fn fold_once(rt: &Rc<InstRt>, ctx: &Rc<Ctx>) {
+fn fold_once(rt: &Rc<InstRt>, ctx: &Rc<Ctx>, kind: u8, after_end: bool) {
     let ended = {
         let o = rt.o.borrow();
         o.err_seen || o.done_seen
     };
-    if ended {
+    if ended && !(after_end && !rt.walked_after_end.get()) {
         poll_once(rt, ctx);
         return;
     }
+    if ended {
+        rt.walked_after_end.set(true);
+    }
+    let errs_before = rt.o.borrow().errs_yielded;
     let mut guard = rt.iter.borrow_mut();
     let it = match guard.as_mut() {
         Some(it) => it,
@@ -975,7 +984,7 @@ fn fold_once(rt: &Rc<InstRt>, ctx: &Rc<Ctx>) {
         let rt2 = rt.clone();
         let ctx2 = ctx.clone();
         catch_unwind(AssertUnwindSafe(move || {
-            it.fold_all(&mut |item| {
+            it.walk(kind, &mut |item| {
                 let mut o = rt2.o.borrow_mut();
                 o.polls += 1;
                 let poll_no = o.polls;
@@ -1004,8 +1013,12 @@ fn fold_once(rt: &Rc<InstRt>, ctx: &Rc<Ctx>) {
     drop(guard);
     let mut o = rt.o.borrow_mut();
     match r {
+        Ok(()) if matches!(kind, 2 | 3 | 4) && o.errs_yielded > errs_before => {
+            // all()/find()/position() stopped at the Err they were given: no None has been seen yet
+            update_driving(rt, ctx, &mut o);
+        }
         Ok(()) => {
-            // fold returned: the iterator yielded None
+            // the method returned: the iterator yielded None
             o.polls += 1;
             let poll_no = o.polls;
             let was_ended = o.err_seen || o.done_seen;
@@ -1450,7 +1463,7 @@ fn adapter_once(rt: &Rc<InstRt>, ctx: &Rc<Ctx>, drive: Drive) {
     drop(guard);
     rt.cursor.set(refit.pos);
     // has the provided implementation, by now, consumed the element at which the iteration ends
-    // with the user's error?
+    // with the user's error? (only used to label how the iteration ended)
     let passed_err = err_pos.map(|e| refit.pos > e).unwrap_or(false);
     let expected_is_user_err = matches!(&expected, ItemRec::Err(c, _) if *c == ErrClass::User);
     let mut o = rt.o.borrow_mut();
@@ -1482,25 +1495,41 @@ fn adapter_once(rt: &Rc<InstRt>, ctx: &Rc<Ctx>, drive: Drive) {
         Ok(Got::Item(Some(Item::Err(e)))) => {
             // handed out by the adapter: judged like any Err item (that error, first, once)
             let r = judge_err(rt, ctx, &e, &mut o);
-            // whatever the provided implementation would still have in store, the iteration is over
-            rt.cursor.set(shadow.len().max(refit.pos));
+            if o.user_err_seen {
+                // whatever the provided implementation would still have in store, the iteration is over
+                rt.cursor.set(shadow.len().max(refit.pos));
+            } else if rec_of(&r) != expected {
+                // an error of the solver itself where the provided implementation has something
+                // else (e.g. an nth() that does not skip errors): outside C06, and from here on
+                // the positions of the two no longer correspond
+                o.adapter_mismatch_no_fault = true;
+                stop = true;
+            }
             r
         }
         Ok(Got::Item(Some(Item::Ok { t, .. }))) => {
             let got = ItemRec::Ok(t.to_bits());
-            if o.user_err_seen || passed_err {
-                if !o.user_err_seen {
-                    ctx.violate(
-                        "item-after-err",
-                        rt.idx,
-                        format!(
-                            "{} returned an Ok item (t = {:?}) although a consumer calling next() has met the Err of the failing derivative call by then: the failure was skipped and the iteration went on",
-                            drive.name(), t
-                        ),
-                    );
-                } else {
-                    judge_ok(rt, ctx, &mut o);
-                }
+            // the time of the last point a consumer calling next() gets before the failure:
+            // anything later than that was produced by going on after the failure (this does
+            // not depend on how many items the adapter consumed per call)
+            let t_last = err_pos.map(|e| {
+                shadow[..e].iter().fold(f64::NEG_INFINITY, |m, x| match x {
+                    ItemRec::Ok(b) => m.max(f64::from_bits(*b)),
+                    _ => m,
+                })
+            });
+            if o.user_err_seen {
+                judge_ok(rt, ctx, &mut o);
+                stop = true;
+            } else if t_last.map(|tl| t > tl).unwrap_or(false) {
+                ctx.violate(
+                    "item-after-err",
+                    rt.idx,
+                    format!(
+                        "{} returned an Ok item (t = {:?}) later than the last point (t = {:?}) a consumer calling next() gets before the Err of the failing derivative call: the failure was skipped and the iteration went on",
+                        drive.name(), t, t_last.unwrap_or(f64::NAN)
+                    ),
+                );
                 stop = true;
             } else if got != expected {
                 if expected_is_user_err && matches!(drive, Drive::Last) {
@@ -1581,7 +1610,18 @@ fn drive_once(rt: &Rc<InstRt>, ctx: &Rc<Ctx>, drive: Drive) {
         }
         Drive::TakeBursts(k) => burst_once(rt, ctx, k.max(1) as usize),
         Drive::Nth0 => nth_once(rt, ctx),
-        Drive::Fold => fold_once(rt, ctx),
+        Drive::Walk(k) => fold_once(rt, ctx, k, false),
+        Drive::PollThenWalk(k) => {
+            let ended = {
+                let o = rt.o.borrow();
+                o.err_seen || o.done_seen
+            };
+            if ended {
+                fold_once(rt, ctx, k, true)
+            } else {
+                poll_once(rt, ctx)
+            }
+        }
         Drive::PollThenCollect => {
             let ended = {
                 let o = rt.o.borrow();
@@ -1594,10 +1634,11 @@ fn drive_once(rt: &Rc<InstRt>, ctx: &Rc<Ctx>, drive: Drive) {
             }
         }
         Drive::PollThenNth(m) => {
-            let ended = {
-                let o = rt.o.borrow();
-                o.err_seen || o.done_seen
-            };
+            // a finisher that discards items is only meaningful once the iteration has ended
+            // with the Err of a failing derivative call (then it must find nothing); after an
+            // error of the solver itself the iteration may legitimately go on, and what nth()
+            // skips there cannot be seen
+            let ended = rt.o.borrow().user_err_seen;
             if ended {
                 nth_after_end(rt, ctx, m as usize)
             } else {
@@ -1605,10 +1646,7 @@ fn drive_once(rt: &Rc<InstRt>, ctx: &Rc<Ctx>, drive: Drive) {
             }
         }
         Drive::PollThenCount | Drive::PollThenLast => {
-            let ended = {
-                let o = rt.o.borrow();
-                o.err_seen || o.done_seen
-            };
+            let ended = rt.o.borrow().user_err_seen;
             if ended {
                 finish_once(rt, ctx, drive == Drive::PollThenLast)
             } else {
@@ -1733,6 +1771,7 @@ fn execute_inner(spec: &RunSpec, budgets: &[Budget], opts: &ExecOpts) -> RunResu
             extra_polls: ispec.extra_polls as u64,
             rec_polls: opts.rec_polls,
             rec_items: opts.rec_items,
+            walked_after_end: Cell::new(false),
             shadow: shadows[i].clone(),
             cursor: Cell::new(0),
         })
